@@ -742,6 +742,8 @@ pub fn load_replay(path: &str) -> Result<(String, Replay), String> {
         ),
         "index" => ReplayCase::Index(payload.as_u64().ok_or("payload")?),
         "text" => ReplayCase::Text(payload.as_str().ok_or("payload")?.to_string()),
+        // a libFuzzer artifact: the bytes, hex-encoded; `sub` is "fuzz:<target>"
+        "fuzz-bytes" => ReplayCase::Text(payload.as_str().ok_or("payload")?.to_string()),
         _ => return Err("unknown kind".into()),
     };
     Ok((prop, Replay { sub, case }))
